@@ -8,6 +8,7 @@
 #include "ref/ref_huff.hpp"
 #include "Archive/AdaptiveHuffmanTree.h"
 #include <memory>
+#include <type_traits>
 #include <set>
 #include <functional>
 
@@ -80,24 +81,40 @@ std::string judge(AdaptiveHuffmanTree& t, const ref::HuffTree& rt, int n, std::s
 	return "";
 }
 
-// diagnostics on the private arrays (explain a violation; never decide one)
-std::string diag(AdaptiveHuffmanTree& t)
-{
-	std::string s = " [diag counts:";
-	for (std::size_t i = 0; i < t.subtreeCount.size() && i < 24; ++i) s += " " + std::to_string(t.subtreeCount[i]);
-	s += " links:";
-	for (std::size_t i = 0; i < t.linkOrData.size() && i < 24; ++i) s += " " + std::to_string(t.linkOrData[i]);
-	return s + "]";
-}
+// The private arrays are used for diagnostics and as part of the state key only (never to decide a violation). If a
+// refactoring renames or retypes them, the harness still builds: the key then consists of the reference tree's shape
+// and weights alone (coarser, which can only lose exploration) and the evidence counts `binding/fallback-keys`.
+template <class T, class = void> struct HasTreeArrays : std::false_type {};
+template <class T> struct HasTreeArrays<T, std::void_t<decltype(std::declval<T&>().linkOrData.data()), decltype(std::declval<T&>().subtreeCount.data()), decltype(std::declval<T&>().parentIndex.data())>> : std::true_type {};
+bool gTreeFallback = false;
 
-std::string privKey(AdaptiveHuffmanTree& t)
+template <class T>
+std::string diagT(T& t)
 {
-	std::string k;
-	k.append(reinterpret_cast<const char*>(t.linkOrData.data()), t.linkOrData.size() * 2);
-	k.append(reinterpret_cast<const char*>(t.subtreeCount.data()), t.subtreeCount.size() * 2);
-	k.append(reinterpret_cast<const char*>(t.parentIndex.data()), t.parentIndex.size() * 2);
-	return k;
+	if constexpr (HasTreeArrays<T>::value) {
+		std::string s = " [diag counts:";
+		for (std::size_t i = 0; i < t.subtreeCount.size() && i < 24; ++i) s += " " + std::to_string(t.subtreeCount[i]);
+		s += " links:";
+		for (std::size_t i = 0; i < t.linkOrData.size() && i < 24; ++i) s += " " + std::to_string(t.linkOrData[i]);
+		return s + "]";
+	}
+	else return "";
 }
+std::string diag(AdaptiveHuffmanTree& t) { return diagT(t); }
+
+template <class T>
+std::string privKeyT(T& t)
+{
+	if constexpr (HasTreeArrays<T>::value) {
+		std::string k;
+		k.append(reinterpret_cast<const char*>(t.linkOrData.data()), t.linkOrData.size() * sizeof(t.linkOrData[0]));
+		k.append(reinterpret_cast<const char*>(t.subtreeCount.data()), t.subtreeCount.size() * sizeof(t.subtreeCount[0]));
+		k.append(reinterpret_cast<const char*>(t.parentIndex.data()), t.parentIndex.size() * sizeof(t.parentIndex[0]));
+		return k;
+	}
+	else { gTreeFallback = true; return ""; }
+}
+std::string privKey(AdaptiveHuffmanTree& t) { return privKeyT(t); }
 
 // ------------------------------------------------------------------------------------------------
 // (1) BFS on small trees
@@ -279,6 +296,7 @@ void runCase(std::size_t i, Ctx& ctx)
 		auto r = mc::bfs(h, ctx, cap, c.depth, "huff" + std::to_string(c.n), true);
 		ctx.trace(r.transitions);
 		ctx.outcome(r.states * 131 + c.n);
+		if (gTreeFallback) ctx.count("binding/fallback-keys");
 		ctx.count(("small/states-n" + std::to_string(c.n) + "-depth" + std::to_string(c.depth)).c_str(), r.states);
 		if (c.n == 4) ctx.sample("n=4: all update histories to depth " + std::to_string(c.depth) + " plus invalid operations: states=" + std::to_string(r.states) + " transitions=" + std::to_string(r.transitions) + " e.g. Update(3) Update(3) Update(1) UpdateInvalid(4) Encode(65535)");
 	}
